@@ -990,4 +990,20 @@ func TestVerifC14LlamaLoop(t *testing.T) {
 		cases = append(cases, vlGenCase(root.Fork()))
 	}
 	vlRunAll(t, out, cases)
+	// F20b on llamarunner too (reason vocabulary): an EOS-terminated and a stop-string-terminated run report the same reason
+	{
+		a := &vlCase{stops: []string{"x"}, script: []vlEv{{piece: "a"}, {eos: true}}, skips: make([]int, 3)}
+		b := &vlCase{stops: []string{"x"}, script: []vlEv{{piece: "a"}, {piece: "x"}}, skips: make([]int, 3)}
+		pieces, next, used := vlPack([]*vlCase{a, b})
+		if used == 2 {
+			if v, err := vlLoad(t.TempDir(), pieces, next, 1); err == nil {
+				ra, ea := v.vlRun(out, a)
+				rb, eb := v.vlRun(out, b)
+				if ea == nil && eb == nil && ra.reason == rb.reason {
+					out.L2("reason-two-values-three-causes", "loop 0 0 1 78 2 61 E", fmt.Sprintf("class=eos-and-stop-string-share-reason runner=llama eos=%s stopstring=%s", ra.reason, rb.reason))
+				}
+				v.close()
+			}
+		}
+	}
 }
